@@ -302,7 +302,7 @@ class ParseMCNPCell:
                             0., 0., 1.]
         elif '*' in elt:
             fill_params = [float(x) for x in fill_params]
-            fill_params[3:] = list(map(to_cos, fill_params[3:12]))
+            fill_params[3:12] = list(map(to_cos, fill_params[3:12]))
             fill_params = normalize_transform(fill_params)
         elif fill_params:
             # this is the case where the transform parameters were given inline
